@@ -13,6 +13,10 @@ def listing(w):
     return sorted(os.listdir(ctx.data_dbs)), sorted(os.listdir(ctx.data_stg))
 
 
+def is_digest_name(name):
+    return len(name) == 73 and name[32] == '_' and all(c in '0123456789abcdef' for c in name[:32] + name[33:])
+
+
 def check_references(w, why):
     """Every catalogue entry refers to an existing stored file -- at every point of the history (this is
     called between any two steps of the clients by the pipeline actor)."""
@@ -47,6 +51,14 @@ def check_store(w, why, crashed=False):
         return
     blobs, staged = listing(w)
     m = w.model
+    temp = [b for b in blobs if not is_digest_name(b)]
+    if temp:
+        # a file that does not even claim to be a blob (a temporary of the move): a staging leftover that
+        # happens to live in the store directory -- allowed after a fault, like any staging leftover
+        w.probes['temporary_file_in_store'] += 1
+        if not w.faulty_history():
+            w.violate('C07', 'staging_leftover', 'in_store', f'[{why}] the store holds {temp[:3]} after all updates completed')
+        blobs = [b for b in blobs if is_digest_name(b)]
     for b in blobs:
         d = sm.file_digest(os.path.join(ctx.data_dbs, b))
         if d != b:
